@@ -1112,6 +1112,7 @@ fn evidence_json(opts: &Opts, kind: SimKind, prop: &'static str, agg: &Agg, wall
         ("distinct_nontrivial", J::u(agg.trace_digests.len() as u64)),
     ];
     let mut assumptions: Vec<String> = vec![];
+    let mut extra_violations: i128 = 0;
     match kind {
         SimKind::Terms => {
             cov.push(("rule", J::s("one evaluation = one simulated run: a random description tree over the 30 term constructors realised 2-4 times (plus 0-3 near-miss descriptions) under independently drawn realisation schedules (route, insertion order, duplicates, capacity history, operand order) with the hasher key of every unordered container handed out by the simulator's key tape; a run is non-trivial when at least one pair of realisations that denote the same term ended up with different physical layouts (different iteration order of an equal set, or swapped operands of a symmetric statement); distinct = distinct digest of (canonical descriptions, set of physical layouts)")));
@@ -1223,6 +1224,9 @@ fn evidence_json(opts: &Opts, kind: SimKind, prop: &'static str, agg: &Agg, wall
         // results of components run by the driver script (Miri), merged verbatim
         if let Ok(text) = std::fs::read_to_string(path) {
             if let Ok(J::Obj(pairs)) = parse_json(&text) {
+                for (_, v) in &pairs {
+                    extra_violations += v.get("violations").and_then(|x| x.as_u64()).unwrap_or(0) as i128;
+                }
                 cov.push(("extra_components", J::Obj(pairs)));
             }
         }
@@ -1241,7 +1245,7 @@ fn evidence_json(opts: &Opts, kind: SimKind, prop: &'static str, agg: &Agg, wall
         ("coverage", J::Obj(cov.into_iter().map(|(k, v)| (k.to_string(), v)).collect())),
         ("assumptions", J::strs(assumptions)),
         ("wall_s", J::Num((wall * 1000.0).round() / 1000.0)),
-        ("violations", J::Int(violations)),
+        ("violations", J::Int(violations + extra_violations)),
     ]))
 }
 
